@@ -41,7 +41,7 @@ fn ast_of(p: &Pattern<P>) -> Value {
 }
 
 fn gen(rng: &mut StdRng, depth: usize, pat: bool) -> String {
-    let slots = ["$1", "$2", "$x", "$yy", "$f3"];
+    let slots = ["$1", "$2", "$x", "$yy", "$f3", "$\u{e9}", "$a\u{e9}b"];
     let sl = |rng: &mut StdRng| slots[rng.gen_range(0..slots.len())].to_string();
     let leaf = depth == 0 || rng.gen_bool(0.25);
     let base = if leaf {
@@ -49,7 +49,7 @@ fn gen(rng: &mut StdRng, depth: usize, pat: bool) -> String {
             0 => "c".to_string(),
             1 => format!("{}", rng.gen_range(1..10)),
             2 => format!("(v {})", sl(rng)),
-            3 if pat => format!("?{}", ["a", "b", "c1"][rng.gen_range(0..3)]),
+            3 if pat => format!("?{}", ["a", "b", "c1", "\u{e9}", "\u{e9}x"][rng.gen_range(0..5)]),
             _ => format!("(f {} {})", sl(rng), sl(rng)),
         }
     } else {
@@ -68,7 +68,7 @@ fn gen(rng: &mut StdRng, depth: usize, pat: bool) -> String {
 fn mutate(rng: &mut StdRng, s: &str, other: &str) -> String {
     let cs: Vec<char> = s.chars().collect();
     let os: Vec<char> = other.chars().collect();
-    let alphabet: Vec<char> = "()[]:=?$ cfghlamtv12x".chars().collect();
+    let alphabet: Vec<char> = "()[]:=?$ cfghlamtv12x\u{e9}".chars().collect();
     if cs.is_empty() { return String::new(); }
     match rng.gen_range(0..6) {
         0 => cs[..rng.gen_range(0..cs.len())].iter().collect(),                       // truncate
